@@ -215,6 +215,16 @@ fn gen_c01(tier: &str, rng: &mut Rng, emit: &mut dyn FnMut(Op)) {
         }
     }
     bound_extension_family(emit);
+    // ignored characters inside a candidate's version (NUL, '+', '~', blanks, non-ASCII) are
+    // skipped and what FOLLOWS them still counts — through best_match as well
+    for (a, b2) in [("1\0.5", "1.2"), ("1.0\0nb3", "1.0nb1"), ("2\0rc1", "2.0"), ("1+.5", "1.2"), ("1~nb4", "1nb2"), ("1 .9", "1.5"),
+        ("1\u{e9}.5", "1.2"), ("1.0\0", "1.0"), ("\0002", "1")] {
+        for pat in ["pkg-[0-9]*", "pkg-*", "pkg>=0"] {
+            emit(Op::s("pattern.best", &[pat, &format!("pkg-{}", a), &format!("pkg-{}", b2)]));
+            emit(Op::s("pattern.best", &[pat, &format!("pkg-{}", b2), &format!("pkg-{}", a)]));
+        }
+        emit_vcmp(emit, a, b2, false);
+    }
     let pads = ["", ".0", ".", "_", "pl", ".0.0", "pl.", "0"];
     for base in ["1", "1.0", "2.5", "1a", "1.0rc1", "3nb2", "10.20"] {
         for x in pads {
